@@ -181,6 +181,12 @@ def specInit : Spec := { now := 0, live := [] }
 the tie the divisor is the exact integer `2048·h`, so the result is determined by two IEEE-754 binary32
 roundings (round to nearest, ties to even): of the `uint64` total, and of the quotient. -/
 
+/-- Round-half-even of `N / D` (IEEE "round to nearest, ties to even" at a fixed exponent). -/
+def roundDiv (N D : Nat) : Nat :=
+  let q := N / D
+  let r := N % D
+  if 2 * r > D ∨ (2 * r = D ∧ q % 2 = 1) then q + 1 else q
+
 /-- binary32 image of the positive rational `n / d` (normal range): `(m, e)` with value `m · 2^e` and
 `2^23 ≤ m < 2^24`; `(0, 0)` for zero. -/
 def f32OfRat (n d : Nat) : Nat × Int :=
@@ -190,9 +196,7 @@ def f32OfRat (n d : Nat) : Nat × Int :=
   let p0 := scale e0
   let e1 : Int := if p0.1 / p0.2 ≥ 2 ^ 24 then e0 + 1 else if p0.1 / p0.2 < 2 ^ 23 then e0 - 1 else e0
   let p := scale e1
-  let q := p.1 / p.2
-  let r := p.1 % p.2
-  let q' := if 2 * r > p.2 ∨ (2 * r = p.2 ∧ q % 2 = 1) then q + 1 else q
+  let q' := roundDiv p.1 p.2
   if q' = 2 ^ 24 then (2 ^ 23, e1 + 1) else (q', e1)
 
 /-- `float32(total) / float32(secs)` for an integer `secs` that is exact in binary32. -/
